@@ -2,11 +2,15 @@ package checks
 
 import (
 	"fmt"
+	"os"
+	"sort"
 	"strings"
+	"sync/atomic"
 
 	"github.com/vedadiyan/genql"
 	"pgregory.net/rapid"
 	"verifharness/selref"
+	"verifharness/sq"
 	"verifharness/val"
 )
 
@@ -20,6 +24,43 @@ type C09Case struct {
 	// Long > 0: both documents get a key `long` holding an array of Long (resp. Long+3) small objects, built at check
 	// time: indexes, ranges and mapped steps far into a long array mean what they mean at its beginning
 	Long int `json:"long,omitempty"`
+	// Late: a top-level key of the document. The selector `<fn>=><key>` is evaluated first while no top-level
+	// function <fn> is registered (an error), then <fn> is registered through the public API, then the very same
+	// text is evaluated again: `fn=>` applies a registered function - from the moment it is registered. <fn> is a
+	// name no earlier case of this process has used.
+	Late string `json:"late,omitempty"`
+}
+
+var c09LateSeq atomic.Int64
+
+func checkC09Late(c *C09Case) Result {
+	res := Result{Labels: []string{"late-registration"}, NonTrivial: true}
+	name := fmt.Sprintf("vflate%d_%d", os.Getpid(), c09LateSeq.Add(1))
+	text := name + "=>" + c.Late
+	before, _ := runSel(c.Doc, text)
+	res.Execs++
+	if before.panic != "" || before.err == "" {
+		res.Violation = fmt.Sprintf("selector %q with no top-level function %s registered: expected an error, got %s", text, name, before)
+		return res
+	}
+	genql.RegisterTopLevelFunction(name, func(v any) (any, error) { return map[string]any{"w": v}, nil })
+	plain, _ := runSel(c.Doc, c.Late)
+	after, m := runSel(c.Doc, text)
+	res.Execs += 2
+	if m != "" {
+		res.Violation = fmt.Sprintf("selector %q modified the document: %s", text, m)
+		return res
+	}
+	if plain.panic != "" || plain.err != "" {
+		res.Discard = "the plain key cannot be read"
+		return res
+	}
+	want := map[string]any{"w": plain.v}
+	if after.panic != "" || after.err != "" || !val.Equal(after.v, want) {
+		res.Violation = fmt.Sprintf("selector %q evaluated once before and once after RegisterTopLevelFunction(%q, wrap): expected %s after the registration, got %s", text, name, val.JSON(want), after)
+		return res
+	}
+	return res
 }
 
 // longArray is the array behind key `long`: element i is {n: i, s: "v<i mod 7>", in: [i, -i]}.
@@ -58,7 +99,22 @@ func init() {
 			"a key step on an array applies the rest of the path to every element (README: '::' exists to continue with the whole result)",
 			"keys contain no single quote; keys containing braces or brackets are used as (quoted) path steps but not inside {..} pipes",
 		},
-		Gen:         genC09,
+		Gen: func(t *rapid.T) any {
+			c := genC09(t).(*C09Case)
+			if rapid.IntRange(0, 39).Draw(t, "late") == 0 {
+				var keys []string
+				for k := range c.Doc {
+					if sq.BareOK(k) {
+						keys = append(keys, k)
+					}
+				}
+				sort.Strings(keys)
+				if len(keys) > 0 {
+					return &C09Case{Doc: c.Doc, Late: rapid.SampledFrom(keys).Draw(t, "late.key")}
+				}
+			}
+			return c
+		},
 		New:         func() any { return &C09Case{} },
 		Check:       func(c any) Result { return checkC09(c.(*C09Case)) },
 		Quick:       8000,
@@ -669,7 +725,7 @@ func sameOutcome(a, b selOutcome) bool {
 }
 
 func runSel(doc map[string]any, s string) (selOutcome, string) {
-	live := val.CopyMap(doc)
+	live := val.CopySpare(doc).(map[string]any)
 	v, e, p := ReadSel(live, s)
 	out := selOutcome{v: v, err: e, panic: p}
 	if p == "" && e == "" {
@@ -679,6 +735,9 @@ func runSel(doc map[string]any, s string) (selOutcome, string) {
 }
 
 func checkC09(c *C09Case) Result {
+	if c.Late != "" {
+		return checkC09Late(c)
+	}
 	if c.Long > 0 {
 		cc := *c
 		cc.Long = 0
